@@ -39,7 +39,7 @@ CLAIMS = {
              '_commit_or_rollback are executed with every DB-API call (connect, cursor, execute, commit, rollback, close, autocommit switch), on_connect and '
              'flush allowed to fail at every point; on every path the SQLite transaction lock is held iff the cache is in a transaction, never double-acquired '
              'or double-released, free at session end, and every connection handed out by the pool is returned or closed exactly once. BOUNDED (<= 2 resumptions, shared with C18): a db_session generator is '
-             'never suspended with unflushed changes or an open transaction.',
+             'never suspended with unflushed changes or an open transaction. A session over two databases (shared with C17): whatever fails, every session cache is released and none outlives the session.',
         note='Thread schedules (two or three sessions) are NOT covered: outside this technique. Ground obligations (decided by evaluation after path enumeration). '
              'Trusted: GhostLock as single-thread model of threading.Lock; DB-API stubs return-or-raise; psycopg2 stub module only supplies exception classes.'),
     'C36': dict(
@@ -87,7 +87,7 @@ CLAIMS = {
              'result-cache key contains the SQL key and the bound arguments, and a hit recomputes nothing; adapt_sql / parse_raw_sql on a symbolic statement text; '
              'decompile keyed by the identity of a code object that is kept alive; string2ast keyed by the exact source text. _get_translator pinned-value check BOUNDED (<= 2).',
         note='Whole histories only BOUNDED (never counted as proved): warm-vs-cold differential on real SQLite over histories of <= 2 statements + core triples (thorough: all <= 3) out of 49 statement '
-             'kinds incl. modifications, flush / commit / rollback and hooks that query during flush; the run with every cache emptied before each statement is the oracle. construct_sql_ast / ast2sql are recording stubs in the key '
+             'kinds incl. modifications, flush / commit / rollback and hooks that query during flush; the run with every cache emptied before each statement is the oracle; and the per-entity SQL caches (_construct_sql_: 648 argument tuples incl. lock modes, _construct_batchload_sql_: 60) answer warm as cold under four warming orders. construct_sql_ast / ast2sql are recording stubs in the key '
              'contract: what they read beyond their arguments is translator state identified by query._key (assumed).'),
     'C04': dict(
         text='Proof over a finite generating set, enumerated completely on the real ast2src / PythonTranslator: for every (parent production, slot, child production) of '
@@ -120,7 +120,7 @@ CLAIMS = {
              'states for objects of length <= 3/4 (Set.reverse_add / reverse_remove incl. do;undo == identity, db_reverse_add / db_reverse_remove incl. the phantom refusal), '
              'and both-ends agreement of the whole session (every pair of reverse attributes, every pair of loaded objects) after each of 30 modification scenarios on a model '
              'with one-to-one (required and optional), many-to-one, many-to-many and cascade relationships, on success and on every raising path incl. injected callee failures; '
-             'histories of <= 2 (thorough 3) relationship operations under 6 load states (objects loaded, known by key only, not known) checked against a dict of the links made and the raw rows.; one-to-one (re)assignments from either side with and without cascade_delete when both objects already have partners.',
+             'histories of <= 2 (thorough 3) relationship operations under 6 load states (objects loaded, known by key only, not known) checked against a dict of the links made and the raw rows; collections loaded in batches of 3 (1..8 objects in the session, 6 read orders, either end first) equal the stored links and agree with the other end.; one-to-one (re)assignments from either side with and without cascade_delete when both objects already have partners.',
         note='No unbounded obligation: the quantifier over all histories is outside the technique; K objects per call and the scenario set are the bounds. Recursive maintenance through '
              '__set__ / _delete_ is exercised only by the scenarios.',
         technique='contracts on real functions, bounded exhaustive state enumeration (contract-based family, bounded stand-in)'),
@@ -153,7 +153,7 @@ CLAIMS = {
              'the new value is installed while the session\'s own unflushed write survives; volatile attributes carry no repeatable-read bit (_initialize_bits_); Attribute.__get__ '
              'sets the read bit exactly for attributes not yet written. The phantom rule for fully loaded collections is checked under C12.',
         note='Per-reload contracts; end to end only BOUNDED (never counted as proved): 5 attribute types x ordinary / boundary / missing values x 10 ways the object became known x a foreign '
-             'change x 4 ways of reading again (one known finding: None values of a new object are forgotten after the INSERT), and the observed-collection scenarios. Interleavings with concurrent '
+             'change x 4 ways of reading again (one known finding: None values of a new object are forgotten after the INSERT), the observed-collection scenarios (one-to-many), and a many-to-many collection observed in 5 ways x 5 foreign link changes x 6 ways of reloading incl. prefetch (one known finding: negative membership answers are not protected). Interleavings with concurrent '
              'committed writers (the schedules quantifier) are outside this technique and not claimed. A volatile attribute '
              'with an unflushed own write at reload time is excluded (not reachable through the API: queries flush first).'),
     'C20': dict(
@@ -161,7 +161,7 @@ CLAIMS = {
         text='BOUNDED stand-in (never counted as proved): on a real loaded object of a model with plain, optimistic=False, volatile, float and NULL-valued attributes, for every subset '
              'of attributes read and every write-before / write-after variant, Entity._construct_optimistic_criteria_ yields exactly the attributes read before being written '
              '(excluding volatile / non-optimistic ones) against the value that was read (IS NULL for None); Entity._save_updated_ adds the criteria iff the session is optimistic and '
-             'the object is not locked for update, raises OptimisticCheckError on zero affected rows, and runs the UPDATE inside the transaction. End to end on a diamond hierarchy: 4 classes x 5 attributes x 9 ways of '
+             'the object is not locked for update, raises OptimisticCheckError on zero affected rows, and runs the UPDATE inside the transaction. Attributes that occupy several columns (references to 2- and 3-column keys): every subset of 5 attributes read x each of 8 columns changed by somebody else: refused exactly when a column of a read attribute changed. End to end on a diamond hierarchy: 4 classes x 5 attributes x 9 ways of '
              'reading (attribute access, to_dict, query conditions over several entities of the hierarchy, get() by value) x with / without a foreign change: writing the object afterwards fails iff the attribute was changed.',
         note='Schedules of concurrent sessions are outside the technique; atomic evaluation of the WHERE clause by the database is assumed. Bounds: one entity, 5 column attributes.',
         technique='contracts on real functions, bounded exhaustive enumeration of read/write sets (contract-based family, bounded stand-in)'),
@@ -172,23 +172,29 @@ CLAIMS = {
              'original condition and involutive. String slicing (C25), LIKE (C06) and limit/offset (C24) are checked under those properties.',
         note='The translator as a whole (monad dispatch, joins, subqueries, aggregates, row decoding, hybrid methods) is out of reach of per-function contracts: only BOUNDED (never counted as proved) on real SQLite: '
              '~115 row conditions against a 3VL reference interpreter, ~35 whole queries with hand-written Python equivalents, ~215 generated aggregate conditions (sum / min / max / avg / count over collections, '
-             'attribute path and generator form, with and without the JOIN() hint). '
+             'attribute path and generator form, with and without the JOIN() hint), ~120 date / datetime expressions (parts, comparisons, +/- timedelta as constant and parameter, differences) exact to the microsecond, '
+             '~80 conditions and projections through references that are parts of composite keys. '
              'Trusted: the 3VL evaluator; strings represented by their length; monad.nullable accurate.'),
     'C02': dict(
         text='PARTIAL, derived: the dialect-quantified contracts of C01 (truth tests), C06 (string literals per value class, LIKE escape per dialect, MOD), C24 (LIMIT without bound per dialect) '
              'and C25 (string slicing per dialect) are re-run with the dialect as configuration; each dialect code path is proved equal to the same dialect-independent Python meaning under '
-             'the dialect semantics of the specification library, so agreement between dialects is the corollary; plus boolean / NULL / integer literal forms per dialect value class.',
+             'the dialect semantics of the specification library, so agreement between dialects is the corollary; plus boolean / NULL / integer literal forms per dialect value class. '
+             'BOUNDED: the string functions (upper, lower, len, strip / lstrip / rstrip with and without chars, +, replace, nested) rendered by the real builders of all six dialect classes, the '
+             'SQLite text executed, the others evaluated under each server\'s documented function semantics by a small interpreter of the emitted forms, each answer equal to Python\'s; the same for date parts, '
+             'date(), datetime +/- timedelta, date +/- days and differences on the generic / PostgreSQL / CockroachDB / MySQL / Oracle builders.',
         note='No PostgreSQL / MySQL / Oracle server or driver is available: server behaviour is represented by documented-semantics clauses (assumed contracts on dependencies; SQLite clauses are '
-             'validated against the real engine). Only mechanisms under contract are compared, not whole queries. Known findings of C25 / C06 reappear here.'),
+             'validated against the real engine). Only mechanisms under contract are compared, not whole queries. Known findings of C25 / C06 reappear here, plus MySQL strip() with several characters and the clipped MySQL TIMEDIFF.'),
     'C17': dict(
         text='PARTIAL proof of the proviso under which crash atomicity is the database\'s own guarantee: on the real Database._exec_sql / SessionCache (prepare_connection, connect, reconnect, '
              'flush, flush_and_commit, commit, close) / db_session exit / provider set_transaction_mode, commit, rollback, drop, release and pools, with the DB-API connection a ledger stub '
              '(SQLite, PostgreSQL, generic), for every DB-API fault point of sessions of reads and writes: the durable writes are none or all of the writes issued (all if the session reported '
              'success, none if its body raised), no write runs in autocommit mode, everything durable came from one transaction; _exec_sql never moves a session with pending writes to another '
              'connection; every write call site of core.py (created / updated / deleted via SessionCache.flush and Entity.flush, m2m add / remove, bulk delete, Database.execute / insert) '
-             'reaches _exec_sql with start_transaction=True or cache.immediate set (all call sites from the AST exercised).',
+             'reaches _exec_sql with start_transaction=True or cache.immediate set (all call sites from the AST exercised). One db_session over TWO databases (every fault point, objects waiting for the '
+             'flush inside commit(), the body calling commit() itself): no database is left with writes neither committed nor rolled back, no session cache outlives the session, each database for itself '
+             'holds none or all of the session\'s writes; atomicity ACROSS databases is not claimed (commit() commits the primary first, by design).',
         note='Crash points and the file contents seen by a new process are NOT explored (outside the technique): they reduce to the database\'s transaction guarantee under the clauses proved. '
-             'Trusted: the ledger model of DB-API connections; one database per session; the body stops at its first exception.'),
+             'Trusted: the ledger model of DB-API connections; the body stops at its first exception.'),
     'C35': dict(
         text='PARTIAL proof of what pony must do so that locking is the database\'s contract: SELECT_FOR_UPDATE on every dialect builder = the plain query + FOR UPDATE [NOWAIT | SKIP LOCKED] '
              '(SQLite: plain); get_for_update (pk / unique / lambda), Query.for_update on a real model: the locking read runs with cache.immediate inside the open (BEGIN IMMEDIATE) transaction, '
@@ -210,7 +216,8 @@ CLAIMS = {
              'flush propagates); SessionCache.flush empties the query-result cache before saving; SetInstance.count with symbolic database count and symbolic |added| / |removed| returns '
              'db + |added| - |removed|, computed with auto-flush disabled, and caches it. BOUNDED differential end to end on real SQLite: for 12 unflushed modifications (and pairs) x 5 warm-up '
              'states x 29 reads (attribute, collection iteration / count / len / is_empty / in, get by pk / unique, exists, select with lambda / keyword filters, aggregates, to_dict, joins) '
-             'the answer inside the modifying session equals the answer of a new session after the same modifications were committed.',
+             'the answer inside the modifying session equals the answer of a new session after the same modifications were committed. BOUNDED: attributes assigned without being read on an '
+             'object known by key only / partly / completely, then one of 14 row-fetching operations (some with auto-flush off), then reads in the session and after commit against a dict.',
         note='Agreement of cache-answered lookups with database queries is history-dependent: covered only for the enumerated scripts (bounded). The oracle is pony itself after commit.'),
     'C15': dict(
         category='other',
@@ -263,7 +270,7 @@ CLAIMS = {
         note='No contract within reach states "inverse of the CPython compiler" for all code objects; this is the function\'s postcondition checked on a finite family. Rejections are allowed by the property and are counted in the evidence.'),
     'C27': dict(
         category='other',
-        text='BOUNDED stand-in (never counted as proved): the real code end to end on SQLite over 5 hierarchies (linear chain, diamond, custom string discriminator, custom integer discriminators incl. the value 0 for the base class; '
+        text='BOUNDED stand-in (never counted as proved): the real code end to end on SQLite over 6 hierarchies (linear chain, diamond, a 5-level hierarchy with a branch and a deep diamond, custom string discriminator, custom integer discriminators incl. the value 0 for the base class; '
              'discriminator) with one stored object per class: reached in a later session (a fresh session per object) in 16 ways (by key through every ancestor, get / select / generator on the root, through a to-one '
              'reference, through a collection, as an unloaded reference loaded on attribute access, select_by_sql, prefetch, projection, get by unique name) the object has its creation '
              'class and identity; through a class it does not belong to it is not found; E.select(), count, exists and isinstance(x, T) / not isinstance / tuple forms / isinstance on a '
